@@ -34,7 +34,8 @@
 // was not used on this command line) belongs to the evaluation, not to the listing.
 //
 // The oracle parses the usage text back (caption lines, entry lines = 3 blanks + non-blank, everything else
-// belongs to the entry above) and checks what C18 states, against the flags read back from the real argument
+// belongs to the entry above; a line that is none of these, not empty and not the "Usage:" head is reported as
+// "other-line") and checks what C18 states, against the flags read back from the real argument
 // objects (isMandatory()/isHidden()/isDeprecated()/key()) and the display settings that were REQUESTED (constructor
 // flags of the main handler, hfUsageDeprecated of a sub-group handler, standard arguments on the command line):
 // see design_notes/usage.md.
@@ -185,6 +186,24 @@ std::string oracle(const std::string& text, const Hdl& hdl) {
       } else if (!l.empty() && l[0] == ' ' && !found.empty()) {
          for (auto& w : wordsOf(l)) found.back().words.push_back(w);
       }
+   }
+   // C18_no_other_lines: every line is the "Usage:" head, a caption, an entry line, a continuation line (at
+   // least four blanks) directly below an entry line / another continuation line of it, or empty - a line the
+   // reader above passes over cannot carry an argument
+   {
+      bool inEntry = false, other = false;
+      for (size_t i = 0; i < lines.size(); ++i) {
+         const std::string& l = lines[i];
+         if (l == "Mandatory arguments:" || l == "Optional arguments:") inEntry = false;
+         else if (l.size() > 3 && l.compare(0, 3, "   ") == 0) {
+            if (l[3] != ' ') inEntry = true;
+            else if (!inEntry) other = true;
+         } else {
+            inEntry = false;
+            if (!l.empty() && !(i == 0 && l == "Usage:")) other = true;
+         }
+      }
+      if (other) bad += " other-line";
    }
    // expected, from the real objects
    std::vector<const ArgRec*> exp[2];
